@@ -23,7 +23,9 @@ HASH2S = {e2e.short_hash(s, "mock_agent"): s for s in SESSIONS}
 SEQS = {
     "commit": ("A", [("git", ["commit", "-q", "-m", "after damage"]), ("git", ["status", "--porcelain"])]),
     "amend": ("A", [("git", ["commit", "-q", "--amend", "-m", "amended after damage"])]),
+    # the person's line in f1.txt (a file with AI lines in the working log) makes the pre-commit checkpoint APPEND an entry
     "checkpoint": ("A", [("agent", "s3", "f2.txt"), ("edit", "g.txt", "hum-after-damage typed by a person"),
+                         ("edit", "f1.txt", "hum-after-damage in an AI file typed by a person"),
                          ("git", ["commit", "-q", "-a", "-m", "after checkpoints"])]),
     "stash": ("A", [("git", ["stash", "push", "-q"]), ("git", ["stash", "pop", "-q"]), ("git", ["commit", "-q", "-a", "-m", "after stash"])]),
     "rebase": ("B", [("git", ["rebase", "-q", "feat"]), ("edit", "g.txt", "hum-after-rebase typed by a person"),
@@ -283,6 +285,8 @@ def run_part(job):
                         core = k in ("checkpoints", "INITIAL", "blobs-dir", "working-log-dir") and n in BLOCKING
                         if state != "A" and k in ("blob", "lock", "old-working-log"):
                             continue
+                        if k in ("blob", "lock") and n not in BLOCKING:
+                            continue          # blob CONTENTS are the snapshot stream's; a lock file's content is never read
                         if core or seqs[(zlib.crc32(f"{rel}|{n}".encode()) + seed) % len(seqs)] == name:
                             slim.append((rel, is_dir, j, n, name))
                     plan = slim
